@@ -1,7 +1,7 @@
 SPECIFICATION Spec
 CONSTANTS
   Garbage = {0, 1, 7}
-  Shipped = {"subleaf"}
+  Shipped = {"noos"}
   MaxCalls = 3
 INVARIANTS SelectWidest SelectStable NeverExceeds
 CHECK_DEADLOCK FALSE
